@@ -258,7 +258,18 @@ class Interp(Engine):
     def e_Attribute(self, e, fr):
         return self.getattr(self.eval(e.value, fr), e.attr)
 
+    def make_super(self, fr):
+        """super() inside a method: attribute lookups continue after the defining class in the MRO of self"""
+        qn = fr.qualname or ""
+        owner = qn.split(":")[-1].split(".")[0]
+        names = [a.arg for a in fr.fn_node.args.args] if fr.fn_node is not None else []
+        if not names or owner not in self.ct.real:
+            raise Unsupported("super() outside a method of a repository class")
+        return SV("py", py=("super", fr.locals[names[0]], owner))
+
     def e_Call(self, e, fr):
+        if isinstance(e.func, ast.Name) and e.func.id == "super" and not e.args and not e.keywords:
+            return self.make_super(fr)
         f = self.eval(e.func, fr)
         args = []
         for a in e.args:
@@ -362,6 +373,17 @@ class Interp(Engine):
             if name in ("index", "count"):
                 return s_py(BoundModel(o, name), "func")
             raise PyExc("AttributeError", None, f"tuple.{name}")
+        if o.kind == "py" and isinstance(o.py, tuple) and len(o.py) == 3 and o.py[0] == "super":
+            _, selfobj, owner = o.py
+            real = self.ct.real.get(owner)
+            for base in [c.__name__ for c in real.__mro__[1:]]:
+                for mi in self.modules.values():
+                    ci = mi.classes.get(base)
+                    if ci and name in ci["methods"]:
+                        return s_py(FuncVal(ci["methods"][name], [], mi, f"{mi.name}:{base}.{name}", self_obj=selfobj), "func")
+            if name == "__init__":
+                return s_py(Builtin("object.__init__", lambda a, k: S_NONE), "func")
+            raise PyExc("AttributeError", None, f"super().{name}")
         if o.kind == "py":
             # concrete python object (enum member, ast node of the harness, ...)
             if hasattr(o.py, name) and isinstance(getattr(o.py, name), (int, str, bool, float, type(None))):
@@ -704,7 +726,9 @@ class Interp(Engine):
         if summ is None and not isinstance(fv.node, ast.Lambda):
             for d in fv.node.decorator_list:
                 if isinstance(d, ast.Call) and getattr(d.func, "id", "") == "abstract":
-                    impl = self.abstract_impls[d.args[0].value]
+                    impl = self.abstract_impls.get(d.args[0].value)
+                    if impl is None:
+                        return self.generic_abstract(d.args[0].value, fv, self.flat_args(args))
                     return impl(self, self.flat_args(args))
         if summ is not None:
             self.p.summarised.add(qn)
@@ -780,10 +804,29 @@ class Interp(Engine):
         finally:
             self.depth -= 1
 
+    def generic_abstract(self, name, fv, args):
+        """an uninterpreted function of the (boxed) arguments; the result sort is the declared return annotation
+        ("int", "bool", "str", otherwise a Val).  Only for functions that do not read the heap."""
+        boxed = [self.box(a) for a in args]
+        rt = fv.node.returns.value if isinstance(fv.node.returns, ast.Constant) else None
+        sort = {"int": z3.IntSort(), "bool": z3.BoolSort(), "str": z3.StringSort()}.get(rt, Val)
+        f = z3.Function(name, *([Val] * len(boxed)), sort)
+        t = f(*boxed)
+        self.p.uf_used.add(name)
+        if rt == "int":
+            return s_int(t)
+        if rt == "bool":
+            return s_bool(t)
+        if rt == "str":
+            self.p.assume(z3.Length(t) <= 2 ** 32)
+            return s_str(t)
+        self.p.assume(M.val_wf(t))
+        return s_val(t)
+
     # ---- recursive spec functions over the heap (ghost) --------------------------------
     rec_footprint: dict = {}       # recursive ghost function -> heap fields its body reads
 
-    def heap_epoch(self, fv):
+    def heap_epoch(self, fv, sample_args=None):
         """identity of the part of the heap the ghost function reads: it is uninterpreted per state of its footprint"""
         p = self.p
         name = fv.qualname
@@ -799,9 +842,13 @@ class Interp(Engine):
                     self._unfolding = fv.node
                     self._unfold_body = fv.node
                     self._unfold_depth = self.unfold_depth
-                    args = [s_val(p.fresh(Val, "fp")) for _ in fv.node.args.args]
-                    for a in args:
-                        p.assume(M.val_wf(a.t))
+                    # the arguments of the first application stand for all (every depth runs the same body)
+                    if sample_args is not None:
+                        args = list(sample_args)
+                    else:
+                        args = [s_val(p.fresh(Val, "fp")) for _ in fv.node.args.args]
+                        for a in args:
+                            p.assume(M.val_wf(a.t))
                     return self.call_func(fv, args, {})
                 try:
                     self.merged(dry)
@@ -825,15 +872,31 @@ class Interp(Engine):
         """the application term of a @recursive spec function at the current heap"""
         name = fv.qualname.split(":")[-1]
         boxed = [self.box(a) for a in self.flat_args(args)]
-        f = z3.Function(f"{name}!h{self.heap_epoch(fv)}", *([Val] * len(boxed)), Val)
+        f = z3.Function(f"{name}!h{self.heap_epoch(fv, self.flat_args(args))}", *([Val] * len(boxed)), Val)
         t = f(*boxed)
         self.p.uf_used.add(f"rec:{name}")
         self.p.assume(M.val_wf(t))
         rt = fv.node.returns
         if isinstance(rt, ast.Constant) and isinstance(rt.value, str):
             self.assume_type(t, rt.value)       # declared range of the ghost function (checked against the body at each unfolding)
+        ens = self.rec_ensures(fv)
+        if ens is not None and not getattr(self, "_in_ensures", False):
+            # postcondition of the ghost function, proved by induction on its unfolding (obligation <name>.ensures-inductive)
+            self._in_ensures = True
+            try:
+                self.p.assume(self.truthy(self.call_func(ens, list(self.flat_args(args)) + [s_val(t)], {})))
+            finally:
+                self._in_ensures = False
         self.p.assume(z3.Implies(Val.is_VRef(t), Val.ref(t) < self.p.alloc0 + self.p.nalloc))
         return s_val(t), (f.name(), tuple(b.get_id() for b in boxed)), boxed
+
+    def rec_ensures(self, fv):
+        """the companion  <name>__ensures(args..., result)  of a recursive ghost function, if the module defines one"""
+        mi = fv.module
+        node = mi.globals.get(fv.node.name + "__ensures") if mi is not None else None
+        if isinstance(node, ast.FunctionDef):
+            return FuncVal(node, [], mi, f"{mi.name}:{node.name}")
+        return None
 
     def call_recursive(self, fv, args, kwargs):
         """r = F(args) with the one-step unfolding  F(args) == body[F := uninterpreted]  assumed at this
@@ -865,6 +928,15 @@ class Interp(Engine):
         rt = fv.node.returns
         if isinstance(rt, ast.Constant) and isinstance(rt.value, str):
             self.p.obligations.append((f"{fv.qualname.split(':')[-1]}.declared-range", simp(self.type_cond(bt, rt.value)), ""))
+        ens = self.rec_ensures(fv)
+        if ens is not None:
+            # inductive step: the body satisfies the postcondition, given that the inner applications do
+            self._in_ensures = True
+            try:
+                c = self.truthy(self.call_func(ens, list(self.flat_args(args)) + [s_val(bt)], {}))
+            finally:
+                self._in_ensures = False
+            self.p.obligations.append((f"{fv.qualname.split(':')[-1]}.ensures-inductive", simp(c), ""))
         self.p.assume(r.t == bt)
         return r
 
@@ -1264,9 +1336,9 @@ class Interp(Engine):
         k = self.loop_ordinal(fr.fn_node, s)
         qn = fr.qualname or ""
         inv = self.loop_invariants.get((qn, k)) or self.loop_invariants.get((qn.split(":", 1)[-1], k))
-        if inv is None and isinstance(s, ast.While):
-            # keyed by the text of the loop condition (robust against loops added elsewhere in a long function)
-            test = ast.unparse(s.test)
+        if inv is None and isinstance(s, (ast.While, ast.For)):
+            # keyed by the text of the loop condition / iterable (robust against loops added elsewhere in a long function)
+            test = ast.unparse(s.test if isinstance(s, ast.While) else s.iter)
             inv = self.loop_invariants.get((qn, test)) or self.loop_invariants.get((qn.split(":", 1)[-1], test))
             k = test if inv is not None else k
         if inv is None:
@@ -1308,14 +1380,35 @@ class Interp(Engine):
         """Hoare while rule.  Obligations: <label>.entry, <label>.preserved.  The loop body must not
         write the heap (checked); locals assigned in the body are havoced."""
         p = self.p
-        if not isinstance(s, ast.While):
-            raise Unsupported("invariants are supported on while loops only")
+        counter = None
+        if isinstance(s, ast.For):
+            # for x in range(a, b[, +-1]):  a counting loop.  The ghost local `<x>__next` is the value x takes in the
+            # next iteration (the invariant may mention it); x itself is assigned at the start of every iteration.
+            it = s.iter
+            if not (isinstance(s.target, ast.Name) and isinstance(it, ast.Call) and isinstance(it.func, ast.Name) and it.func.id == "range"
+                    and 1 <= len(it.args) <= 3 and not s.orelse):
+                raise Unsupported("invariants are supported on while loops and `for x in range(...)` loops only")
+            ra = [self.refine(self.eval(a, fr)) for a in it.args]
+            if any(a.kind not in ("int", "bool") for a in ra):
+                raise Unsupported("range() bounds are not integers")
+            ra = [self.num(a) for a in ra]
+            lo, hi = (s_int(0), ra[0]) if len(ra) == 1 else (ra[0], ra[1])
+            step = conc_int(ra[2].t) if len(ra) == 3 else 1
+            if step not in (1, -1):
+                raise Unsupported("range() step other than +-1")
+            counter = (s.target.id, s.target.id + "__next", hi, step)
+            fr.locals[counter[1]] = lo
+        elif not isinstance(s, ast.While):
+            raise Unsupported("invariants are supported on while loops and `for x in range(...)` loops only")
         p.obligations.append((f"{label}.invariant-on-entry", simp(self.eval_invariant(inv, fr)), ""))
         mod = set()
         for st in s.body:
             for n in ast.walk(st):
                 if isinstance(n, ast.Name) and isinstance(n.ctx, ast.Store):
                     mod.add(n.id)
+        if counter is not None:
+            mod.add(counter[1])
+            mod.add(counter[0])
         kinds = {}
         for n in sorted(mod):
             old = fr.locals.get(n)
@@ -1326,7 +1419,15 @@ class Interp(Engine):
         heap0 = dict(p.heap)
         nalloc0 = p.nalloc
         p.assume(self.eval_invariant(inv, fr))
-        if p.fork(self.truthy(self.eval(s.test, fr))):
+        if counter is not None:
+            nxt = fr.locals[counter[1]]
+            cond = (nxt.t < counter[2].t) if counter[3] == 1 else (nxt.t > counter[2].t)
+        else:
+            cond = self.truthy(self.eval(s.test, fr))
+        if p.fork(cond):
+            if counter is not None:
+                fr.locals[counter[0]] = nxt
+                fr.locals[counter[1]] = s_int(simp(nxt.t + counter[3]))
             try:
                 self.exec_block(s.body, fr)
             except _Break:
@@ -1345,7 +1446,8 @@ class Interp(Engine):
                     raise Unsupported(f"{label}: {n} changes kind {k} -> {nk}")
             p.obligations.append((f"{label}.invariant-preserved", simp(self.eval_invariant(inv, fr)), ""))
             raise PathCut()
-        self.exec_block(s.orelse, fr)
+        if counter is None:
+            self.exec_block(s.orelse, fr)
 
     def iter_items(self, it: SV, node):
         """return a python list of SVs when the iterable has a statically known length, else None"""
